@@ -1403,7 +1403,8 @@ class HeteroscedasticReLUConditional(HeteroscedasticConditional):
         w = W_i[None,1:]
         p_h = p_x.get_density_of_linear_sum(w[None], w0[None])
         tp_h = truncated_measure.TruncatedGaussianMeasure(measure=p_h, lower_limit=0., upper_limit=jnp.inf)
-        omega_dagger = tp_h.integrate('x')[:,0]
+        Zh = tp_h.integrate()
+        omega_dagger = tp_h.integrate('x')[:,0] / jnp.where(Zh > 0., Zh, 1.)
         return omega_dagger
     
     def _update_omega_star(self, p_x: pdf.GaussianPDF, y: Float[Array, "N Dy"], W_i: Float[Array, "Dx+1"], a_i: Float[Array, "Dy"], omega_star: Float[Array, "N"]) -> Float[Array, "N"]:      
